@@ -104,13 +104,23 @@ def run(ctx):
         h2 = C01.rand_tensor(rng, norb, 2, 0.2, True)
         add("arr", h1)
         add("arr", h2)
-        add("ham", fqe.get_restricted_hamiltonian((h1.copy(), h2.copy()), e_0=0.5))
-        add("ham", fqe.get_diagonal_hamiltonian(numpy.array([float(rng.randint(-2, 2)) for _ in range(norb)])))
+        makers = {}
+        hd = numpy.array([float(rng.randint(-2, 2)) for _ in range(norb)])
+        mk_r = (lambda a=h1.copy(), b=h2.copy(): fqe.get_restricted_hamiltonian((a.copy(), b.copy()), e_0=0.5))
+        mk_d = (lambda a=hd.copy(): fqe.get_diagonal_hamiltonian(a.copy()))
+        makers[add("ham", mk_r())] = mk_r
+        makers[add("ham", mk_d())] = mk_d
         op = C01.random_fermionop(rng, norb, FermionOperator, True, True, 2)
         if len(op.terms) == 0:
             op = FermionOperator(((0, 1), (0, 0)), 1.0)
         add("op", op)
-        add("ham", fqe.get_sparse_hamiltonian(op))
+        mk_s = (lambda o=copy.deepcopy(op): fqe.get_sparse_hamiltonian(copy.deepcopy(o)))
+        makers[add("ham", mk_s())] = mk_s
+        # a second, longer sparse Hamiltonian (not a single string): its propagation goes through iht()
+        op3 = C01.random_fermionop(rng, norb, FermionOperator, True, True, 3)
+        if len(op3.terms) >= 3:
+            mk_s3 = (lambda o=copy.deepcopy(op3): fqe.get_sparse_hamiltonian(copy.deepcopy(o)))
+            makers[add("ham", mk_s3())] = mk_s3
         h3 = C01.rand_tensor(rng, norb, 3, 0.01, False)
         add("arr", h3)
         recorded = []     # (description, thunk, digest)
@@ -203,7 +213,11 @@ def run(ctx):
                     frozen = None
                     if kind in ("apply", "expect", "rdm", "add", "cirq", "vdot", "iht", "evolve"):
                         args = thunk.__defaults__
-                        cargs = tuple(copy.deepcopy(a) if hasattr(a, "sectors") else a for a in args)
+                        # wavefunctions are copied; Hamiltonians are rebuilt from their source data, so that the frozen
+                        # call never sees state accumulated in the pooled object by earlier calls
+                        fresh = {id(pool[x][1]): makers[x] for x in makers if x < len(pool)}
+                        cargs = tuple(copy.deepcopy(a) if hasattr(a, "sectors") else
+                                      (fresh[id(a)]() if id(a) in fresh else a) for a in args)
                         th = thunk
                         frozen = (lambda th=th, cargs=cargs: th(*cargs))
                         recorded.append((kind, frozen, value_digest(frozen())))
